@@ -36,6 +36,13 @@ def formula_set(tier, dense=False):
     if quick:
         Uc = [u for u in Uc if u[0] in ('next', 'prev', 'eventually', 'always', 'once', 'rise')]
     fs += list(F.chains(3, Uc, F.PX))
+    if not dense:
+        # one bare variable read by a bounded operator and by a sibling node (the two nodes receive the same list)
+        X, Y, px = F.X, F.Y, F.PX
+        for I in ((0, 1), (0, 2), (1, 2)):
+            u = ('until', I, X, Y)
+            fs += [('or', u, ('once', (0, 1), X)), ('and', ('pred', '>=', Y, F.C0), u), ('or', ('always', I, X), ('pred', '>=', X, Y)),
+                   ('and', ('eventually', I, X), ('historically', (0, 1), X)), ('implies', ('since', I, X, Y), ('pred', '<=', X, F.C1))]
     out, seen = [], set()
     for f in fs:
         if f not in seen and (dense or True):
